@@ -117,29 +117,25 @@ func poolOracle(s *poolScn, res poolChildResult) []string {
 	case s.fault == "transport" && inRange:
 		allowed["io"] = true
 	case s.fault == "stall" && inRange:
-	case s.format == "ll":
-		// a Low-Latency stream has no end-of-stream path in the client: when the origin stops advertising a
-		// preload hint the stream downloader fails with "preload hint disappeared" — the first fatal error
-		allowed["other"] = true
 	default:
+		// also for a Low-Latency stream: the origin ends it with a playlist that carries ENDLIST and no preload
+		// hint; the client (fix-F28) pushes the end-of-stream marker and yields ErrClientEOS
 		allowed["eos"] = true
 	}
-	if !allowed[result] {
+	hintGone := s.format == "ll" && res.msg == "preload hint disappeared"
+	if result == "other" && hintGone {
+		// upstream behaviour, defect F28: the Low-Latency loop has no end-of-stream path
+		fail("F28-ll-endlist-no-eos: the Low-Latency stream ended (ENDLIST, no preload hint) but Wait() yielded \"preload hint disappeared\" instead of ErrClientEOS")
+	} else if !allowed[result] {
 		fail("Wait() yielded %q (%s), which is neither the injected failure, nor end of stream, nor a termination after Close", result, res.msg)
 	}
-	if result == "other" {
-		hintGone := s.format == "ll" && res.msg == "preload hint disappeared"
+	if result == "other" && !hintGone {
 		switch {
-		case s.fault == "status" && inRange && s.format == "ll" && s.layout == "rend":
-			// two independent streams: the other one may reach its end first
-			if !strings.Contains(res.msg, "bad status code") && !hintGone {
-				fail("HTTP failure surfaced as a different error: %s", res.msg)
-			}
 		case s.fault == "status" && inRange:
 			if !strings.Contains(res.msg, "bad status code") {
 				fail("HTTP failure surfaced as a different error: %s", res.msg)
 			}
-		case !hintGone:
+		default:
 			fail("unexpected fatal error: %s", res.msg)
 		}
 	}
